@@ -299,7 +299,7 @@ def rule_accounting(ctx, r):
                     offs.append(reg.off)
             amts = sorted(str(o) for o in offs)
             ok_adv = len(offs) == 2 and sorted(amts) == sorted(str(slices.lin(fldv(n_))) for n_ in ("bytes_consumed", "bytes_written"))
-            ok_ad = bool(st_ad) and paths.term_contains(st_ad[-1][2], lambda y: y[0] == "call" and y[1].endswith(statefn) and y[4 - 1] > cs[0][4])
+            ok_ad = bool(st_ad) and paths.term_contains(st_ad[-1][2], lambda y: y[0] == "call" and y[1].split("::")[-1] == statefn and y[4 - 1] > cs[0][4])
             if ok_tot and ok_adv and ok_ad:
                 r.ok(f.name, "accounting", "next_in/next_out advanced by, and total_in/total_out wrapping-added with, exactly the counts returned; adler refreshed afterwards")
             else:
